@@ -501,6 +501,13 @@ pub fn check_end_to_end(c: &ChordCase, ctx: &mut Ctx) -> CheckResult {
         ctx.discard = true;
         return Ok(());
     }
+    // right-hand sides at the infinity bound that are *kept* (presolve off) enter the problem as 1e20: such
+    // data are numerically meaningless (objectives ~1e25, verdicts flip with the last bit), as in C19
+    let dropped0 = dropped_rows(&c.ps, &c.st, bound);
+    if c.ps.b.iter().zip(&dropped0).any(|(v, d)| !*d && v.abs() >= 1e19) {
+        ctx.label("e2e:huge-rhs-kept(not judged)");
+        return Ok(());
+    }
     let mut off_st = c.st.clone();
     off_st.chordal_decomposition_enable = false;
     let reference = catch(|| run_solver(&c.ps, &off_st)).map_err(|p| format!("panic without decomposition: {p}"))?;
